@@ -9,6 +9,7 @@ from pyvc.ty import INT, BOOL, Text, StrA, TList, TTuple, TOpt, TRec, SLICE, TOp
 
 from .types import TemplatedFile, RawFileSlice, TemplatedFileSlice
 from .c31 import is_nl_enum, iter_indices_of_newlines  # noqa: F401  (callee contract)
+from . import c07_rectify as _rectify  # noqa: F401  (JinjaTemplater._rectify_templated_slices: contract, lemmas, mutants)
 
 PROP = "C07"
 
@@ -106,14 +107,14 @@ class raw_process:
 
 def _bounded():
     from .c07_bounded import BOUNDED as B
-    return list(B)
+    return list(B) + list(_rectify.BOUNDED)
 
 
 BOUNDED = _bounded()
-TRUSTED = ["str.find contract (via iter_indices_of_newlines, C31)"]
+TRUSTED = ["str.find contract (via iter_indices_of_newlines, C31)"] + list(_rectify.TRUSTED)
 NOT_COVERED = ["source-slice bounds and literal-text equality (3rd/4th conjunct of the property) are decided only for the "
                "raw templater (by construction) and bounded for python/jinja/placeholder slicers",
-               "PythonTemplater.slice_file, JinjaTracer / JinjaAnalyzer, _handle_unreached_code: heuristic slicing, bounded only"]
+               "PythonTemplater.slice_file, JinjaTracer / JinjaAnalyzer, _handle_unreached_code: heuristic slicing, bounded only"] + list(_rectify.NOT_COVERED)
 MUTANTS = [
     ("raw_check_skipped", "sqlfluff/core/templaters/base.py", "            assert rfs.source_idx == pos, (", "            assert rfs.source_idx >= pos, ("),
     ("raw_total_len_skipped", "sqlfluff/core/templaters/base.py", "        assert pos == len(self.source_str), (", "        assert pos <= len(self.source_str), ("),
@@ -121,4 +122,4 @@ MUTANTS = [
     ("templated_first_skipped", "sqlfluff/core/templaters/base.py", "                if tfs.templated_slice.start != 0:", "                if tfs.templated_slice.start < 0:"),
     ("templated_final_skipped", "sqlfluff/core/templaters/base.py", "            if tfs.templated_slice.stop != len(templated_str):", "            if tfs.templated_slice.stop > len(templated_str):"),
     ("newlines_of_wrong_string", "sqlfluff/core/templaters/base.py", "self._templated_newlines = list(iter_indices_of_newlines(self.templated_str))", "self._templated_newlines = list(iter_indices_of_newlines(self.source_str))"),
-]
+] + list(_rectify.MUTANTS)
